@@ -1,5 +1,5 @@
 """Bounded exhaustive mutation of small seed files (DESIGN 1.6 E7): every byte-prefix truncation, every token replaced
-by every member of an adversarial alphabet, every integer token by every integer in -2..30, every line deleted / duplicated, one extra token per line, one extra
+by every member of an adversarial alphabet, every integer token by every integer in -2..50, every line deleted / duplicated, one extra token per line, one extra
 line; pairs of token replacements in the thorough tier (fixed order, so that a covered prefix can be stated)."""
 import itertools, re
 
@@ -28,7 +28,7 @@ def mutants(text, pairs=False, max_prefix=4000, int_sweep=True):
         # integer tokens (identifiers, counts, enumeration values): every small integer, so that each bound of each
         # enumeration or count check is crossed by exactly one
         if int_sweep and re.fullmatch(r'-?\d+', text[a:b]):
-            for v in range(-2, 31):
+            for v in range(-2, 51):
                 out += emit('tok%d=%d' % (i, v), text[:a] + str(v) + text[b:])
         out += emit('tok%d+dup' % i, text[:b] + ' ' + text[a:b] + text[b:])
         # equal neighbours (degenerate ranges, repeated values): the token takes the value of the previous / next one
